@@ -42,7 +42,7 @@ func init() { register(c09{}) }
 func (c09) ID() string    { return "C09" }
 func (c09) Level() string { return "exploration" }
 func (c09) Rule() string {
-	return "one case = (configurations A,B with an observable debug probe; start state NewMiddleware(A) or zero value; operation sequence of length 1..8 over SetDebug(true/false), Reconfigure(nil/A/B/invalid)); plus occasional Reconfigure(Config()) and request bursts; state observed after every step through a plan-chosen kind of failing preflight (method / private-network / header list); the middleware AS THE HISTORY LEFT IT is compared with a fresh one in the opposite debug mode (second clause of the property); distinct = distinct plan hash; non-trivial = the sequence contains at least one SetDebug and at least one Reconfigure"
+	return "one case = (configurations A,B with an observable debug probe - in 20% of the cases B is instead a configuration under which no preflight from an allowed origin can fail, so that debug mode is invisible while B is installed and must be found as the state machine says at the next visible configuration; start state NewMiddleware(A) or zero value; operation sequence of length 1..8 over SetDebug(true/false), Reconfigure(nil/A/B/invalid)); plus occasional Reconfigure(Config()) and request bursts; state observed after every step through a plan-chosen kind of failing preflight (method / private-network / header list); the middleware AS THE HISTORY LEFT IT is compared with a fresh one in the opposite debug mode (second clause of the property); distinct = distinct plan hash; non-trivial = the sequence contains at least one SetDebug and at least one Reconfigure"
 }
 func (c09) Budget(tier string) (int, time.Duration) {
 	if tier == "thorough" {
@@ -65,7 +65,7 @@ func (c09) FaultKinds() []string {
 	return []string{"F1_rejected_reconfigure", "op_setdebug_on_passthrough", "op_reconfigure_nil"}
 }
 func (c09) Probes() []string {
-	return []string{"debug_on_observed", "debug_off_observed", "passthrough_observed", "setdebug_true_then_configure", "debug_survives_reconfigure", "twin_debug_pairs_compared", "history_twin_compared"}
+	return []string{"debug_on_observed", "debug_off_observed", "passthrough_observed", "setdebug_true_then_configure", "debug_survives_reconfigure", "twin_debug_pairs_compared", "history_twin_compared", "configuration_showing_nothing_of_debug_mode"}
 }
 
 func hasObservableDebug(c Cfg) bool { _, ok := debugProbe(c); return ok }
@@ -79,8 +79,47 @@ func genObservableCfg(r *R) Cfg {
 	}
 }
 
+// genIndifferentCfg returns a configuration under which no preflight from an
+// allowed origin can fail (every method, every request header, private-network
+// access granted): debug mode has nothing to show there, yet by the documented
+// state machine it is set, kept and cleared exactly as under any other
+// configuration - which the next observable configuration of the history shows.
+func genIndifferentCfg(r *R) Cfg {
+	for tries := 0; tries < 50; tries++ {
+		c := genCfg(r)
+		c.Credentialed = false
+		var os []string
+		for _, o := range c.Origins {
+			if o != "*" {
+				os = append(os, o)
+			}
+		}
+		if len(os) == 0 {
+			os = []string{"https://example.com"}
+		}
+		c.Origins = os
+		c.Methods = []string{"*"}
+		c.RequestHeaders = []string{"*"}
+		if r.P(0.3) {
+			c.RequestHeaders = append(c.RequestHeaders, "Authorization")
+		}
+		if !c.PNA && !c.PNANoCors {
+			c.PNA, c.PNANoCors = r.P(0.7), false
+			c.PNANoCors = !c.PNA
+		}
+		if m, err, pan := newMW(c); m != nil && err == nil && pan == nil && !hasObservableDebug(c) {
+			return c
+		}
+	}
+	return genObservableCfg(r)
+}
+
 func (c09) Gen(r *R, tier string) any {
 	p := &C09Plan{A: genObservableCfg(r), B: genObservableCfg(r), StartZero: r.P(0.5), Probe: r.Intn(12)}
+	if r.P(0.2) {
+		// B (never both) shows nothing of debug mode: the state must survive the stay there
+		p.B = genIndifferentCfg(r)
+	}
 	n := r.Range(1, 8)
 	if tier == "thorough" && r.P(0.3) {
 		n = r.Range(8, 14)
@@ -151,7 +190,11 @@ func (c09) Exec(plan any, c *Ctx) *Violation {
 			c.hit("passthrough_observed")
 			return nil // debug of a passthrough middleware is observed at the next configuration
 		}
-		q, _ := debugProbeK(cur, p.Probe)
+		q, observable := debugProbeK(cur, p.Probe)
+		if !observable {
+			c.hit("configuration_showing_nothing_of_debug_mode")
+			return nil // as on a passthrough middleware: observed at the next configuration that shows it
+		}
 		r1 := srv.do(q)
 		var got bool
 		switch {
